@@ -35,3 +35,81 @@ add("C16", "model_checking",
     "spec/ConfSyntax.tla states the documented syntax at byte level. TLC checks Meaning(Parse(Render(t,l)))=Meaning(t) for every tree shape up to the bound x every cyclic layout tape, and for pseudo-random layouts of all shapes <=3 entries and of larger trees (<=3 per object, depth <=2). Each rendering is loaded by the rebuilt parser in a fresh state and TLC judges the recorded dump: bytes=Render(tree,layout), rc=0, present nodes=Meaning(tree), typed settings=component sum, unparsable typed values leave the parsed value.",
     "Holds for the stated bounds and the layout sets enumerated/sampled (seeded); 'documented syntax' is the grammar comment plus the decisions R1-R8 listed in the spec; TLC, the harness dump and fork-based fresh state are trusted; decimal integers and values <2^31 only.",
     "DESIGN.md 6 (C16), 9")
+
+_DAEMON_TECH = ("implementation-shaped TLA+ spec of the daemon (IAuth.tla: request table, hold counters, service slots, timer) composed "
+                "with the observation-level contract monitor (IAuthContract.tla) and model-checked exhaustively by TLC; one "
+                "shortest-path behaviour per explored transition replayed on the rebuilt ASan daemon (barriered steps, "
+                "'<id> ! timeout' hook at the model's Timeout steps); recorded ndjson traces validated by TLC (IAuthTrace.tla): "
+                "contract conjunct %s on the real output is the oracle, B's prediction is the drift detector")
+_DAEMON_NOTE = ("Exhaustive for the stated small constants (1-2 ids, <=3 instances, <=3 passwords, service tables of 1-3 services of "
+                "all four protocol types); behaviours sampled 1/emit_mod in quick (every transition in the thorough small plans), "
+                "plus seeded simulation with boundary-length text pools. Output attributed to steps by the `-1 ? stats2` barrier; "
+                "texts stand for their length class; the timer fires only at the hook.")
+
+add("C01", "model_checking", _DAEMON_TECH % "P01_once",
+    "TLC explores B x A for 1 id x 2 instances with stale-tag replies, junk and lines for dead clients (26 321 states / 1.19e6 "
+    "transitions quick; thorough adds 3 instances, two login services, 2 ids and simulation) with P01_once and the B invariants "
+    "(HoldsSane, SerialsUnique, RefsCover, TimerSane, NoReadyLeft, Agree) on every state. ~2e4 (quick) behaviours incl. a probing tail "
+    "are replayed on the real daemon; TLC evaluates on every real step: <=1 verdict and <=1 soft-done per instance, nothing "
+    "(client line or X line with its tag) names a client in or after the step of its verdict/D/T, verdicts only for live ids.",
+    _DAEMON_NOTE, "DESIGN.md 6 (C01), 5.1, 5.2, App. A")
+
+add("C02", "model_checking", _DAEMON_TECH % "P02_gate",
+    "TLC explores every order of data items, passwords (+x, +!, -!, ill-shaped), replies of all kinds and the timeout firing point "
+    "for the service tables login+dronecheck and combined (quick; thorough: all five tables, 2 instances with strays, 3 passwords, "
+    "simulation), checking P02_gate on B. Replayed behaviours are judged by TLC on the real output: an accept (D/R) only when the "
+    "contract's own got/owes/expired/bang/acct (computed from the lines sent and the X lines observed) allow it; never after NO.",
+    _DAEMON_NOTE, "DESIGN.md 6 (C02), 9, App. A")
+
+add("C03", "model_checking", _DAEMON_TECH % "P03_prompt (and completion of every step)",
+    "Safety form of the liveness wording: after every step no live client is Ready (data or hurry-up, nothing owed or expired, no "
+    "unmet +!). TLC checks it on B for two login services (second stamping OK, reply after timeout, reply after challenge, -! after "
+    "+!, password re-sent while awaited) and login+dronecheck (quick; thorough adds three more tables, a no-timeout configuration "
+    "and simulation) together with hold-counter sanity; replayed behaviours are judged by TLC on every real step; a daemon that dies "
+    "or hangs in a step is a violation too.",
+    _DAEMON_NOTE, "DESIGN.md 6 (C03), 8 (D2, D4, D14, D15)")
+
+add("C04", "model_checking",
+    _DAEMON_TECH % "P04_stray" + "; plus a differential of two real runs (with / without guaranteed-stray replies spliced in) compared by TLC (DiffTrace.tla)",
+    "Stray replies (stale serial after id reuse, malformed tags, unknown / not-awaited service, every reply kind) are enabled in every "
+    "model state and are stutters of B (checked by TLC). (i) behaviours with strays replayed: a stray step prints nothing (P04_stray "
+    "on the real trace); (ii) sampled behaviours with 1-2 strays spliced at random positions vs the same history without them, both on "
+    "fresh daemons, followed by a distinguishing tail (password, hurry-up, OK from every service, timeout): TLC requires equal output "
+    "on every other step (350 pairs quick / 20 000 thorough).",
+    _DAEMON_NOTE + " Tags spelling the current (id, serial) differently (leading zeros, upper case) are not generated (DESIGN.md 9).",
+    "DESIGN.md 6 (C04), 9")
+
+add("C11", "model_checking",
+    "TLA+ ClassRules spec (rule order, criteria conjunction, Glob, address prefix, first match, trust_username) model-checked by TLC over "
+    "enumerated rule tables x clients; each case rendered to a configuration + client history, run on the real daemon with iauth_class "
+    "loaded, and the recorded verdict validated by TLC (ClassTrace.tla) against FirstMatch",
+    "TLC enumerates rule tables (<=3 rules, names in mixed case, each criterion absent or one of 2-3 patterns incl. CIDR/wildcard masks, "
+    "class present/absent, trust_username) x client attribute tuples (1.0e5 states quick) and checks determinism and listing-order "
+    "independence; a glob model is checked against a reference matcher. 3 655 (quick) / ~1e5 (thorough) cases are replayed on real daemons: "
+    "attributes established by C/u/N/login OK/service OK, TLC compares the class field of D/R and the U line with FirstMatch.",
+    "Bounded tables and pattern pools; globs over short strings; the account criterion uses the stamp-stripped account as documented. "
+    "UBSan shift diagnostics in irc_pton are recorded only.",
+    "DESIGN.md 6 (C11), 5.3")
+
+add("C15", "model_checking",
+    "TLA+ spec of the configuration merge (Conf.tla: B = transcription of conf_replace_value / conf_register_*, A = declarative 'file value "
+    "else default else gone' contract) model-checked by TLC; one behaviour Register*;Load;Register*;Load;Load per explored transition "
+    "replayed through harness/h_conf on the rebuilt src/config.c; dumps and hook logs validated by TLC (ConfTrace.tla)",
+    "7 universes (quick; 11 thorough) over names {a,b}, depth <=2, all four node kinds: 4 722 states / 50 535 transitions, each transition's "
+    "behaviour (50 528) plus 400 seeded random long histories run on the real code as prefix trees; TLC judges after every step: effective "
+    "value = file value else registered default, unregistered leftovers gone, same file twice => no change and no hook, setting hook iff own "
+    "effective value changed, object hook iff membership changed, registration before/after loads equivalent, failed load keeps last good.",
+    "Exhaustive for the stated universes; larger universes by seeded random histories. Hook = conf_register_*'s change callback recorded by "
+    "the harness. ASan covers pointer ownership across loads.",
+    "DESIGN.md 6 (C15), 5.3, 8 (D9, D13)")
+
+add("C18", "model_checking",
+    "TLA+ spec of log routing (LogRoute.tla: implementation-shaped rescan/merge/refcount model vs declarative Route contract) model-checked "
+    "by TLC over sections and reload sequences; each behaviour replayed through harness/h_log on the rebuilt src/log.c + src/config.c with "
+    "one numbered probe per (facility, severity) after every load; destination files read back and validated by TLC (LogTrace.tla)",
+    "TLC enumerates sections (<=2-3 entries, facilities incl. *, severity expressions of every operator < <= = >= >, lists, *, malformed "
+    "entries, 2-3 destinations) and reload sequences (<=3), checking that routing after a reload depends on the new section only. 12 672 "
+    "histories / 6.6e5 probe steps (quick) on the real code: TLC requires each probe in exactly Route[fac][sev] U Route[*][sev], every line "
+    "complete and carrying (facility:severity).",
+    "Destinations restricted to openable file: targets; 'written' = at least once (duplicates not counted, DESIGN.md 9); bounded sections.",
+    "DESIGN.md 6 (C18), 5.3")
